@@ -364,8 +364,10 @@ def execute(schedule, ctx):
     subs = d['submodels']
     ids = list(subs)
     exp_check = {'_': list(spec['own']['check'])}
+    exp_endo = {'_': list(spec['own']['endo'])}
     for s_ in ids:
         exp_check[s_] = list(spec['subs'][s_].get('check', spec['subs'][s_]['endo']))
+        exp_endo[s_] = list(spec['subs'][s_]['endo'])
     ctx.probe(f'submodels:{min(len(ids), 2)}{"+" if len(ids) > 2 else ""}')
 
     # ---- construction facts
@@ -470,11 +472,12 @@ def execute(schedule, ctx):
         if kind == 'grow_endogenous':
             # the instance-level endogenous list is the user's to change at run time
             target = L if op['who'] == '_' else subs.get(op['who'])
-            if target is not None:
+            if target is not None and op['who'] in exp_endo:
                 lst = target.__dict__['endogenous']
-                extra = [x for x in target.__dict__['index'] if x not in lst and x not in ('status', 'iterations')]
+                extra = [x for x in target.__dict__['index'] if x not in exp_endo[op['who']] and x not in ('status', 'iterations')]
                 if extra:
                     lst.append(extra[0])
+                    exp_endo[op['who']].append(extra[0])
                     ctx.probe('history:endogenous-list-grown')
             ctx.log(step, 'grow_endogenous')
             ctx.outcome('grow_endogenous', 'ok')
@@ -654,8 +657,8 @@ def execute(schedule, ctx):
         #      instances' own endogenous / check lists as they are now
         # (the check lists are the classes' own plus the edits this history made - kept by the harness, not read back from
         #  the instances, whose lists are part of what is judged; a submodel that joined during the run brings its own)
-        own_endo, own_check = list(d['endogenous']), list(exp_check['_'])
-        sub_endo = {sid: list(subs[sid].__dict__['endogenous']) for sid in ids}
+        own_endo, own_check = list(exp_endo['_']), list(exp_check['_'])
+        sub_endo = {sid: list(exp_endo[sid]) if sid in exp_endo else list(subs[sid].__dict__['endogenous']) for sid in ids}
         sub_check = {sid: list(exp_check[sid]) if sid in exp_check else list(subs[sid].__dict__['check']) for sid in ids}
         start = {k_: {nm: a.copy() for nm, a in v_.items()} for k_, v_ in snap.items()}
         if off:
